@@ -235,7 +235,8 @@ ASSUME = [
 ]
 
 
-def run_family(ctx, prop, clause_of, nontrivial, rule, want=("steps", "dec", "chk", "trace"), extra_items=()):
+def run_family(ctx, prop, clause_of, nontrivial, rule, want=("steps", "dec", "chk", "trace"), extra_items=(), pre=None):
+    """pre: optional callable(ctx) -> (failures, evaluations) of a property-specific sweep judged elsewhere (merged into the result)"""
     """clause_of(verdict, record) -> None | clause string (a violation of `prop`)"""
     import time as _t
     P = PLANS[ctx.tier]
@@ -275,6 +276,9 @@ def run_family(ctx, prop, clause_of, nontrivial, rule, want=("steps", "dec", "ch
     verdicts = validate(ctx, records)
     ctx.notes.append(f"phases: generate+instantiate {t1 - t0:.1f}s, record {t2 - t1:.1f}s, validate {_t.time() - t2:.1f}s")
     failures, mach, samples = [], [], []
+    pre_evals = 0
+    if pre is not None:
+        failures, pre_evals = pre(ctx)
     nontriv, outdom = set(), 0
     opcount = {}
     for rec in records:
@@ -309,14 +313,14 @@ def run_family(ctx, prop, clause_of, nontrivial, rule, want=("steps", "dec", "ch
     if os.environ.get("VERIF_DUMP"):
         with open(os.environ["VERIF_DUMP"], "w") as f:
             for fl in failures:
-                f.write(json.dumps({"clause": fl["clause"], "ops": [o["o"] for o in fl["replay_obj"]["record"]["prog"]],
+                f.write(json.dumps({"clause": fl["clause"], "ops": [o["o"] for o in fl["replay_obj"]["record"].get("prog", [])],
                                     "hex": fl["replay_obj"]["record"]["hex"], "tag": fl["replay_obj"]["record"]["tag"]}) + "\n")
     # smallest failing programs first, so that the reported witness is minimal
-    failures.sort(key=lambda f: len(f["replay_obj"]["record"]["prog"]))
+    failures.sort(key=lambda f: len(f["replay_obj"]["record"].get("prog", ())))
     for rec in records[:: max(1, len(records) // 5)][:5]:
         samples.append({"prog": [o["o"] for o in rec["prog"]][:30], "hex": rec["hex"][:80], "verdict": verdicts[rec["id"]]})
-    return finish(ctx, level="model_checking", failures=failures, evaluations=len(records),
-                  distinct_nontrivial=len(nontriv), rule=rule, samples=samples, traces=len(records),
+    return finish(ctx, level="model_checking", failures=failures, evaluations=len(records) + pre_evals,
+                  distinct_nontrivial=len(nontriv), rule=rule, samples=samples, traces=len(records) + pre_evals,
                   assumptions=ASSUME, machinery_errors=mach,
                   extra={"out_of_typed_domain": outdom, "exhaustive": False, "opcode_occurrences": opcount,
                          "profiles": [f"{g['profile']}:len{g['maxlen']}" + (":simulate" if g.get("simulate") else (":exhaustive-sampled" if g.get("sample") else ":exhaustive"))
